@@ -4,6 +4,7 @@
   Model: NV.Model.Upstream. The model's clock is exact: "completion time" is the arrival time of
   the accepted datagram or the deadline. Real time is measured by the `upfault` area.
 -/
+import NV.Gen.PkgState
 import NV.Model.Upstream
 import NV.Gen.Upstream
 namespace NV.C03
@@ -242,5 +243,18 @@ theorem gen_every_dial_bounded :
 answer; and one where the answer comes too late. -/
 example : dns53Loop 7 300 [⟨10, [0, 9, 1]⟩, ⟨12, [0]⟩, ⟨40, [0, 7, 1, 2]⟩] = .answer 40 [0, 7, 1, 2] := by decide
 example : dns53Loop 7 300 [⟨10, [0, 9, 1]⟩, ⟨550, [0, 7, 1, 2]⟩] = .timeout 300 := by decide
+
+/-- **regenerated (no hidden state between exchanges)**: the models of the resolvers, of the probe and of the transports decide
+every exchange from its own inputs (`dns53Loop`, `dohOutcome`, the `upfpair` / `d53soak` / `realep` model lines).  In the
+packages on the query path — proxy, resolver, resolver/endpoint, resolver/query, config — the only package-level variables
+written after initialisation are the lazily built root-certificate pool and its `sync.Once`; everything else that outlives a
+query hangs off the objects the models carry (cache, manager, endpoint, proxy).  (A counter, a socket list, a table of
+transports or a cached probe message at package level would be state the models do not have.) -/
+theorem gen_no_hidden_process_state :
+    (Gen.PkgState.table.all fun r =>
+      r.2.2.isEmpty || (r.1 == "resolver/endpoint" && (r.2.1 == "rootCAInit" || r.2.1 == "rootCAs"))) = true ∧
+    (Gen.PkgState.table.any fun r => r.1 == "resolver" && r.2.1 == "defaultDialer") = true ∧
+    (Gen.PkgState.table.any fun r => r.1 == "resolver/endpoint" && r.2.1 == "TestDomain") = true := by
+  decide
 
 end NV.C03
